@@ -63,6 +63,19 @@ func index(a []float64) map[uint64]int {
 	return m
 }
 
+// CoverageError: the probe render (whose constant field makes no cube prunable by value) never evaluated a
+// corner of a finest cell that intersects the bounding box: whatever surface lies in that cell is lost.
+type CoverageError struct {
+	Corner []float64
+	Msg    string
+}
+
+func (e *CoverageError) Error() string { return e.Msg }
+
+func overlaps(a []float64, i int, lo, hi float64) bool {
+	return i >= 0 && i+2 < len(a) && a[i] < hi && a[i+2] > lo
+}
+
 // Discover3 renders a constant field `neutral` over bb through r and returns the lattice of
 // evaluation points.
 func Discover3(r render.Render3, bb sdf.Box3, neutral float64) (*Lat3, error) {
@@ -97,6 +110,15 @@ func Discover3(r render.Render3, bb sdf.Box3, neutral float64) (*Lat3, error) {
 		for j := 0; j < len(l.Y); j += 2 {
 			for k := 0; k < len(l.Z); k += 2 {
 				if l.Eval[[3]int{i, j, k}] == 0 {
+					for _, a := range []int{i - 2, i} {
+						for _, b := range []int{j - 2, j} {
+							for _, c := range []int{k - 2, k} {
+								if overlaps(l.X, a, bb.Min.X, bb.Max.X) && overlaps(l.Y, b, bb.Min.Y, bb.Max.Y) && overlaps(l.Z, c, bb.Min.Z, bb.Max.Z) {
+									return nil, &CoverageError{[]float64{l.X[i], l.Y[j], l.Z[k]}, fmt.Sprintf("the finest cell [%g,%g]x[%g,%g]x[%g,%g] intersects the bounding box %v..%v but its corner (%g,%g,%g) is never evaluated, even for a field that makes no cube prunable", l.X[a], l.X[a+2], l.Y[b], l.Y[b+2], l.Z[c], l.Z[c+2], bb.Min, bb.Max, l.X[i], l.Y[j], l.Z[k])}
+								}
+							}
+						}
+					}
 					return nil, fmt.Errorf("hierarchical lattice: corner %d,%d,%d was not evaluated by the probe", i, j, k)
 				}
 			}
@@ -245,6 +267,13 @@ func Discover2(r render.Render2, bb sdf.Box2, neutral float64) (*Lat2, error) {
 	for i := 0; i < len(l.X); i += 2 {
 		for j := 0; j < len(l.Y); j += 2 {
 			if l.Eval[[2]int{i, j}] == 0 {
+				for _, a := range []int{i - 2, i} {
+					for _, b := range []int{j - 2, j} {
+						if overlaps(l.X, a, bb.Min.X, bb.Max.X) && overlaps(l.Y, b, bb.Min.Y, bb.Max.Y) {
+							return nil, &CoverageError{[]float64{l.X[i], l.Y[j]}, fmt.Sprintf("the finest cell [%g,%g]x[%g,%g] intersects the bounding box %v..%v but its corner (%g,%g) is never evaluated, even for a field that makes no square prunable", l.X[a], l.X[a+2], l.Y[b], l.Y[b+2], bb.Min, bb.Max, l.X[i], l.Y[j])}
+						}
+					}
+				}
 				return nil, fmt.Errorf("hierarchical 2D lattice: corner %d,%d not evaluated by the probe", i, j)
 			}
 		}
